@@ -11,6 +11,7 @@ import EasyMl.Lemmas.Iter
 import EasyMl.Lemmas.MatrixResize
 import EasyMl.Props.C01
 import EasyMl.Props.C09
+import EasyMl.Props.C11
 
 namespace EasyMl.Survivor
 open EasyMl EasyMl.Spec
@@ -353,6 +354,29 @@ theorem matrixEmpty_inv (rows columns : Nat) (v : α) (m : Matrix α)
     cases h
     exact ⟨⟨by simp, hc.1, hc.2.1⟩, rfl, rfl⟩
   · cases h
+
+/-! ### `insert_row` / `insert_column` with a panicking `Clone` -/
+
+theorem insertRowCloning_spec (m : Matrix α) (hm : m.Inv) (row : Nat) (v : α) (p : Option Nat) :
+    (insertRowCloning m row v p).state.Inv ∧
+      ((insertRowCloning m row v p).panic ≠ none → (insertRowCloning m row v p).state = m) := by
+  unfold insertRowCloning
+  split
+  · split
+    · exact ⟨hm, fun _ => rfl⟩
+    · exact ⟨EasyMl.C11.step_inv m hm (.insertRow row v), EasyMl.C11.panic_frame m hm (.insertRow row v)⟩
+  · exact ⟨hm, fun _ => rfl⟩
+
+theorem insertColumnCloning_spec (m : Matrix α) (hm : m.Inv) (column : Nat) (v : α) (p : Option Nat) :
+    (insertColumnCloning m column v p).state.Inv ∧
+      ((insertColumnCloning m column v p).panic ≠ none → (insertColumnCloning m column v p).state = m) := by
+  unfold insertColumnCloning
+  split
+  · split
+    · exact ⟨hm, fun _ => rfl⟩
+    · exact ⟨EasyMl.C11.step_inv m hm (.insertColumn column v),
+        EasyMl.C11.panic_frame m hm (.insertColumn column v)⟩
+  · exact ⟨hm, fun _ => rfl⟩
 
 /-! ### matrix view sources whose cells stay inside the leaf -/
 
